@@ -213,8 +213,10 @@ TOTALITY_TEXT = {
            "status word returned is a mask. NOT decided: arithmetic safety of the inventoried sites, termination of the reviewed loops, "
            "debug-only overflow checks.",
     "C10": "Totality clause of C10 only ('the routines always return: they never panic'): the C19 rules scoped to the call trees of "
-           "the *_add_mulgen_vartime combinations and verify_helper_vartime. Equality with the constant-time computation is numeric "
-           "and NOT decided.",
+           "the *_add_mulgen_vartime combinations and verify_helper_vartime; R10z in each of the ten combination routines the receiver is "
+           "assigned as a whole on every path to the return, for every value of the routine's constant-assigned bool flags (product "
+           "of the CFG with the flag values): otherwise the input point would be returned as the result for all-zero digits; K5 limb "
+           "coverage in the call trees of the *vartime* routines. Equality with the constant-time computation is numeric and NOT decided.",
     "C11": "Totality clause of C11 only ('return for every input scalar, without panicking'): the C19 rules scoped to split_vartime, "
            "split_mu, split_theta, mul_divr_rounded and the lagrange family. The split contract and termination of the lattice "
            "reductions are numeric and NOT decided.",
@@ -227,7 +229,7 @@ def check_totality(prop):
     def chk(tier):
         run = Run(prop, tier, level="other")
         cfgs = configs_for(tier)
-        stats = run_engines(run, ["totality", "maskdom", "loops"] if prop == "C19" else ["totality", "limbcov"], cfgs, prop)
+        stats = run_engines(run, ["totality", "maskdom", "loops"] if prop == "C19" else ["totality", "limbcov", "flaginit"] if prop == "C10" else ["totality", "limbcov"], cfgs, prop)
         nsites = sum(s["totality"].get("sites", 0) for s in stats.values())
         return run.finish(
             explanation=TOTALITY_TEXT[prop],
@@ -314,6 +316,17 @@ def eng_loops(f, sub, prop):
 
 
 ENGINES["loops"] = eng_loops
+
+
+def eng_flaginit(f, sub, prop):
+    from . import flaginit
+    n = flaginit.run_flaginit(f, sub, prop)
+    if n < 10:
+        sub.oblige(ok=False)
+        sub.add(Finding("R10z", "anchor", "flaginit R10z: only %d combination routines found (floor 10)" % n, config=f.config, prop=prop))
+
+
+ENGINES["flaginit"] = eng_flaginit
 GATE_TEXT["C17"] = ("Two structural clauses of C17: G7a for each hash context type, reset() (transitively) writes every field "
                     "that new() initialises, except the reviewed configuration / dead-buffer fields; G7b every public function "
                     "named *reset* or documented as automatically resetting reaches its return only through a call that resets "
